@@ -30,8 +30,11 @@ import (
 
 	"github.com/elastos/Elastos.ELA/common"
 	"github.com/elastos/Elastos.ELA/common/config"
+	"github.com/elastos/Elastos.ELA/core/checkpoint"
 	"github.com/elastos/Elastos.ELA/core/types"
 	"github.com/elastos/Elastos.ELA/core/types/payload"
+	crstate "github.com/elastos/Elastos.ELA/cr/state"
+	"github.com/elastos/Elastos.ELA/crypto"
 	"github.com/elastos/Elastos.ELA/dpos/state"
 
 	"verifharness/elaenv"
@@ -114,6 +117,12 @@ func main() {
 		st.Count("floatsum:"+fs.Func+"@"+fs.At, true, "static:float-map-sum")
 		if !fs.Integral {
 			st.Fail("float-map-sum:"+fs.Func, "consensus code accumulates a float64 sum with non-integer addends while ranging over a map: the result depends on Go's random map iteration order: "+fs.Func+" at "+fs.At, fs)
+		}
+	}
+	for _, ms := range facts.MapOrder {
+		st.Count("maporder:"+ms.Func+"@"+ms.At, ms.Verdict == "sorted", "static:map-order-site:"+ms.Verdict)
+		if ms.Verdict == "unsorted" {
+			st.Fail("map-order:"+ms.Func, "a slice filled in Go's random map iteration order reaches a consumer unsorted in consensus code: "+ms.Func+" uses it at "+ms.Use+" (filled at "+ms.At+", origin: "+ms.RangeAt+")", ms)
 		}
 	}
 	st.Extra["graph_nodes"] = len(facts.Names)
@@ -616,6 +625,136 @@ func main() {
 			}
 		}
 		rightsCase(ps, "")
+	}
+
+	// ---- CRC arbiter selection: a committee in which several members have not claimed a DPoS node
+	// while several configured CRC arbiter keys are unclaimed. Unclaimed members (in DID order) must
+	// get the unclaimed configured keys in sorted order, on every evaluation and every rebuild.
+	crcCase := func(nUnclaimed int, v2 bool, corpus string) {
+		params := config.GetDefaultParams()
+		keys := params.DPoSConfiguration.CRCArbiters
+		if len(keys) < 4 || nUnclaimed > len(keys) {
+			return
+		}
+		type memb struct {
+			did     common.Uint168
+			code    []byte
+			claimed string
+		}
+		var ms []memb
+		claimOrder := rng.Intn(len(keys))
+		for i := range keys {
+			_, pub, err := crypto.GenerateKeyPair()
+			if err != nil {
+				panic(err)
+			}
+			pk, _ := pub.EncodePoint(true)
+			code := append(append([]byte{byte(len(pk))}, pk...), 0xac)
+			var did common.Uint168
+			copy(did[:], rng.Bytes(21))
+			m := memb{did: did, code: code}
+			if i >= nUnclaimed {
+				m.claimed = keys[(i+claimOrder)%len(keys)]
+			}
+			ms = append(ms, m)
+		}
+		didOfOwner := map[string]string{}
+		for _, m := range ms {
+			didOfOwner[common.BytesToHexString(m.code[1:len(m.code)-1])] = m.did.String()
+		}
+		// expected pairing, computed independently
+		claimedSet := map[string]bool{}
+		for _, m := range ms {
+			if m.claimed != "" {
+				claimedSet[m.claimed] = true
+			}
+		}
+		var free []string
+		for _, k := range keys {
+			if !claimedSet[k] {
+				free = append(free, k)
+			}
+		}
+		sort.Strings(free)
+		byDID := append([]memb{}, ms...)
+		sort.Slice(byDID, func(i, j int) bool { return byDID[i].did.Compare(byDID[j].did) < 0 })
+		expect := map[string]string{}
+		fi := 0
+		for _, m := range byDID {
+			if m.claimed == "" {
+				expect[m.did.String()] = free[fi]
+				fi++
+			} else {
+				expect[m.did.String()] = m.claimed
+			}
+		}
+		var first string
+		for rep := 0; rep < 6; rep++ {
+			g := newFixture()
+			g.params = params
+			g.arb = state.NewArbitersVerifC24(params, func(uint32) (*types.Block, error) { return nil, fmt.Errorf("no block") })
+			com := crstate.NewCommittee(params, checkpoint.NewManager(params))
+			perm := rng.Intn(len(ms))
+			for i := range ms {
+				m := ms[(i+perm)%len(ms)]
+				var dpk []byte
+				if m.claimed != "" {
+					dpk, _ = common.HexStringToBytes(m.claimed)
+				}
+				com.Members[m.did] = &crstate.CRMember{Info: payload.CRInfo{Code: m.code, DID: m.did}, MemberState: crstate.MemberInactive, DPOSPublicKey: dpk}
+			}
+			g.arb.SetCRCommitteeVerifC24(com)
+			for i := 0; i < 40; i++ {
+				_, pub, _ := crypto.GenerateKeyPair()
+				pk, _ := pub.EncodePoint(true)
+				g.arb.AddProducerVerifC24(pk, pk, common.Fixed64(1000+i), nil)
+			}
+			for e := 0; e < 8; e++ {
+				var res map[common.Uint168]state.ArbiterMember
+				var err error
+				panicked, pv := lib.Recover(func() {
+					if v2 {
+						res, _, err = g.arb.GetCRCArbitersV2Verif(10)
+					} else {
+						res, err = g.arb.GetCRCArbitersV1Verif(10)
+					}
+				})
+				if panicked || err != nil {
+					st.Extra["crc_case_error"] = fmt.Sprint(pv, err)
+					return
+				}
+				got := map[string]string{}
+				var canon []string
+				for _, ar := range res {
+					d := didOfOwner[common.BytesToHexString(ar.GetOwnerPublicKey())]
+					got[d] = common.BytesToHexString(ar.GetNodePublicKey())
+					canon = append(canon, d+"="+got[d][:16])
+				}
+				sort.Strings(canon)
+				c := strings.Join(canon, " ")
+				in := map[string]interface{}{"v2": v2, "unclaimed_members": nUnclaimed, "unclaimed_configured_keys": free, "corpus": corpus}
+				if first == "" {
+					first = c
+					for d, k := range expect {
+						if got[d] != k {
+							in["member"], in["got_node_key"], in["expected_node_key"] = d, got[d], k
+							st.Fail("getCRCArbiters:key-assignment", "an unclaimed CR member did not get the next unclaimed configured CRC key in sorted order (members in DID order)", in)
+							break
+						}
+					}
+				} else if c != first {
+					in["assignment_a"], in["assignment_b"] = first, c
+					st.Fail("getCRCArbiters:map-order", "the CRC arbiter set (which configured node key each unclaimed CR member gets) differs between evaluations / rebuilds of the same chain data", in)
+					return
+				}
+			}
+		}
+		st.Count(fmt.Sprintf("crc:%v:%d:%s", v2, nUnclaimed, first), nUnclaimed >= 2, "getCRCArbiters")
+	}
+	crcCase(3, true, "three unclaimed members, V2")
+	crcCase(3, false, "three unclaimed members, V1")
+	for i := 0; i < run.N(6, 300); i++ {
+		crcCase(rng.Range(0, 6), rng.Bool(), "")
 	}
 
 	atomic.StoreInt32(&hammerStop, 1)
